@@ -346,11 +346,14 @@ def _same(t1, t2):
     return z3.And(*conds)
 
 
-def initglobals(ctx, n_init=3, n_ext=1, real_base=False, sentinel=False):
+def initglobals(ctx, n_init=3, n_ext=1, real_base=False, sentinel=False,
+                front=False):
     """initglobals(use_known_records=True) on symbolic records, twice
     (idempotence), then extend the records at run time and re-initialise;
     finally the legacy mode (SUPPORTED_MINECRAFT_VERSIONS as the source)."""
     import minecraft as m
+    import minecraft.utility as U
+    from minecraft.networking.connection import ConnectionContext as CC
     Version = m.Version
     saved_records = list(m.KNOWN_MINECRAFT_VERSION_RECORDS)
     saved_idx = m.PROTOCOL_VERSION_INDICES
@@ -376,31 +379,79 @@ def initglobals(ctx, n_init=3, n_ext=1, real_base=False, sentinel=False):
         m.initglobals(use_known_records=True)
         t2 = _snapshot(m)
         idem = _same(t1, t2)
-        # run-time extension, then rebuild
-        R.extend(Version(*r) for r in recs[n_init:])
+        # a context object created (and used) BEFORE the extension must
+        # compare correctly AFTER the tables are rebuilt
+        live = None
+        if ctx.mode == 'sym':
+            saved_u = U.PROTOCOL_VERSION_INDICES
+            U.PROTOCOL_VERSION_INDICES = m.PROTOCOL_VERSION_INDICES
+        if len(allrecs) >= 2:
+            live = [CC(protocol_version=allrecs[-1][1]),
+                    CC(protocol_version=allrecs[-2][1])]
+            for c_ in live:
+                c_.protocol_earlier(allrecs[-1][1])
+                c_.protocol_later_eq(allrecs[-2][1])
+        # run-time extension (new records go to the front or to the end),
+        # then rebuild
+        if front:
+            R[0:0] = [Version(*r) for r in recs[n_init:]]
+        else:
+            R.extend(Version(*r) for r in recs[n_init:])
         m.initglobals(use_known_records=True)
         t3 = _snapshot(m)
-        allrecs2 = allrecs + recs[n_init:]
+        allrecs2 = (recs[n_init:] + allrecs) if front else \
+            (allrecs + recs[n_init:])
         if sentinel:
             allrecs2 = allrecs2[:-1]        # wrong: forgets the extension
         ok3 = _projection_ok(allrecs2, t3)
+        live_ok = z3.BoolVal(True)
+        if live is not None:
+            kp = t3[3]          # KNOWN_PROTOCOL_VERSIONS after the rebuild
+
+            def pos(v):
+                out = z3.BitVecVal(-1, ctx.W)
+                for j in reversed(range(len(kp))):
+                    out = z3.If(E(kp[j]) == E(v), z3.BitVecVal(j, ctx.W), out)
+                return out
+            cs = []
+            others = [allrecs2[0][1], allrecs2[-1][1], allrecs[-1][1],
+                      allrecs[-2][1]]
+            for c_, own in zip(live, (allrecs[-1][1], allrecs[-2][1])):
+                for o in others:
+                    cs += [EB(c_.protocol_earlier(o)) ==
+                           z3.ULT(pos(own), pos(o)),
+                           EB(c_.protocol_earlier_eq(o)) ==
+                           z3.ULE(pos(own), pos(o)),
+                           EB(c_.protocol_later(o)) ==
+                           z3.UGT(pos(own), pos(o)),
+                           EB(c_.protocol_later_eq(o)) ==
+                           z3.UGE(pos(own), pos(o))]
+            live_ok = z3.And(*cs)
         # legacy mode: derive from SUPPORTED_MINECRAFT_VERSIONS only; the
         # known tables must be left as they are, the rest rebuilt equal
         m.initglobals()
         t4 = _snapshot(m)
         idem2 = _same(t3, t4)
     finally:
+        if ctx.mode == 'sym':
+            try:
+                U.PROTOCOL_VERSION_INDICES = saved_u
+            except NameError:
+                pass
         m.PROTOCOL_VERSION_INDICES = saved_idx
         m.KNOWN_MINECRAFT_VERSION_RECORDS[:] = saved_records
         m.initglobals(use_known_records=True)
     note_key(ctx, 'C08:initglobals')
-    return z3.And(ok1, idem, ok3, idem2)
+    return z3.And(ok1, idem, ok3, idem2, live_ok)
 
 
 def instances(tier, seed):
     out = [
         Instance('order', 'order', {}, W=40, budget_s=600),
         Instance('initglobals:3+1', 'initglobals', {'n_init': 3, 'n_ext': 1},
+                 W=40, budget_s=900, witness_every=7),
+        Instance('initglobals:1+2:front', 'initglobals',
+                 {'n_init': 2, 'n_ext': 1, 'front': True},
                  W=40, budget_s=900, witness_every=7),
         Instance('sentinel:order', 'order', {'sentinel': True}, W=40,
                  budget_s=600, expect='violation',
